@@ -453,6 +453,30 @@ func nearBounds(r *vgen.Rand, bounds []float64, fallback float64) float64 {
 	return b
 }
 
+// poor cycles (after a rich one, same memory): one narrow positive value, a lone zero (sum, min and
+// max all 0, no buckets), or a cancelling pair (sum exactly 0).
+func poorFloats(r *vgen.Rand) []float64 {
+	switch r.Intn(4) {
+	case 0:
+		return []float64{0}
+	case 1:
+		x := float64(1+r.Intn(64)) / 8
+		return []float64{x, -x}
+	}
+	return []float64{genValue(r, 7)}
+}
+
+func poorInts(r *vgen.Rand) []int64 {
+	switch r.Intn(4) {
+	case 0:
+		return []int64{0}
+	case 1:
+		x := int64(1 + r.Intn(9))
+		return []int64{x, -x}
+	}
+	return []int64{int64(1 + r.Intn(9))}
+}
+
 func sameFloats(a, b []float64) bool {
 	if len(a) != len(b) {
 		return false
@@ -700,9 +724,9 @@ func main() {
 		if reuse {
 			for k := 1; k < nb; k += 2 { // poor cycle after a rich one: few positive values, no zeros, no negatives
 				if isInt {
-					ib[k] = []int64{int64(1 + r.Intn(9))}
+					ib[k] = poorInts(r)
 				} else {
-					fb[k] = []float64{genValue(r, 7)}
+					fb[k] = poorFloats(r)
 				}
 			}
 			w.Tally("explicit:reused-resourcemetrics")
@@ -816,6 +840,8 @@ func main() {
 	addExpo(4, 0, false, false, true, nil, [][]int64{{-1, -200, 0, 5}, {3}, {0, -9}, {7}}, "corpus-expo-reuse")
 	addExplicit([]float64{0, 5, 10}, 0, false, false, [][]float64{{-1, 0, 7, 100}, {3}, {-2, 20}, {6}}, nil, "corpus-explicit-reuse")
 	addExplicit([]float64{0, 5, 10}, 0, false, true, nil, [][]int64{{-1, 0, 7, 100}, {3}}, "corpus-explicit-reuse")
+	addExplicit([]float64{0, 5, 10}, 0, false, false, [][]float64{{-1, 0.5, 7, 100}, {0}, {4, 8}, {2, -2}}, nil, "corpus-explicit-reuse")
+	addExpo(20, 4, false, false, false, [][]float64{{-1, 0.5, 7, 100}, {0}, {4, 8}, {2, -2}}, nil, "corpus-expo-reuse")
 	reuse = false
 
 	sizes := []int32{1, 2, 3, 4, 20, 160}
@@ -848,9 +874,9 @@ func main() {
 		if reuse {
 			for k := 1; k < nb; k += 2 { // poor cycle after a rich one: one narrow positive value
 				if isInt {
-					ib[k] = []int64{int64(1 + r.Intn(9))}
+					ib[k] = poorInts(r)
 				} else {
-					fb[k] = []float64{genValue(r, 7)}
+					fb[k] = poorFloats(r)
 				}
 			}
 			w.Tally("expo:reused-resourcemetrics")
